@@ -17,6 +17,8 @@ CHECKS = {
          "attackers are identified by source address; copies of genuine traffic are presented only after the server has answered the original (otherwise the copy is the original)"),
  "C06": ("exploration", "§3 C06", "Replayer actors re-send recorded genuine TCP streams / prefixes / first segments and UDP datagrams from other addresses 0 s - 5 min later, before/after the original ended, concurrently with fresh dials, with the replay caches rebased onto the virtual clock; zero-reply / no-Accept / no-session oracle. Second scenario: ReplayCache operation histories under the virtual clock against an ideal bounded-memory set.",
          "replays are byte-exact; the cache model mirrors only the documented capacity/interval contract"),
+ "C07": ("exploration", "§3 C07", "serveruser.Registry driven by a cooperative scheduler on guarded yield sites (exact, seed-chosen interleavings of 1-3 discovery actors, cache recording and a reload actor) over user universes with re-keyed and shared credentials, colliding cache sources, hint-mandatory toggles and cache ageing; the recorded history is checked with porcupine against a reference decision that ignores caches and sources. End-to-end attribution is asserted in whole-system runs.",
+         "hook H2 (yield sites, bucket index); the reference decision uses refproto's key derivation; porcupine Unknown is never reported"),
  "C08": ("exploration", "§3 C08", "A reference peer with an explicit, skewed and jumping clock talks to a real endpoint in both roles and on both transports: accept grid |d| <= 60 s (minus flight time) around key-slot changes and minute ticks must handshake and echo; refuse grid (timestamp >= 2 min off, key >= 4 min off, both) must get nothing. Key-cache lookup histories with non-monotonic instants are checked against the reference derivation (exactly the three candidate slots, never another).",
          "the skewed party is always the reference peer; refproto is the trusted base; hook H3 exposes the cache's explicit-time entry points"),
  "C09": ("exploration", "§3 C09", "Direction 1: every segment emitted by real endpoints in C01/C02/C03-style runs must decode with the independent reference codec. Direction 2: reference client vs real server and real client vs reference server, using every documented freedom (padding 0..255, all low-entropy modes/rotations/padding bits, maximal payloads, piggy-backed open payload up to 1024, ack-only segments); the application must get exactly the bytes.",
